@@ -10,6 +10,6 @@ for f in lean/FordModel.lean lean/FordModel/Dispatch.lean MANIFEST.json; do
 done
 python3 tools/gen_dispatch.py >/dev/null && (cd tools && python3 gen_manifest.py)
 git add -A
-if git grep -lE '^(<<<<<<<|>>>>>>>) ' --cached -- . ':!tools/merge_branch.sh' ':!DESIGN.md' | grep -q .; then echo "CONFLICT MARKERS in:"; git grep -lE '^(<<<<<<<|>>>>>>>) ' --cached -- . ':!tools/merge_branch.sh' ':!DESIGN.md'; exit 1; fi
+if git grep --cached -lE '^(<<<<<<<|>>>>>>>) ' -- . ':!tools/merge_branch.sh' ':!DESIGN.md' | grep -q .; then echo "CONFLICT MARKERS in:"; git grep --cached -lE '^(<<<<<<<|>>>>>>>) ' -- . ':!tools/merge_branch.sh' ':!DESIGN.md'; exit 1; fi
 if git diff --cached --name-only --diff-filter=U | grep -q .; then echo "UNRESOLVED:"; git diff --name-only --diff-filter=U; exit 1; fi
 git commit -qm "Merge $1" && echo merged
